@@ -135,6 +135,9 @@ def gen_fourier(rng, tier):
             # torchkbnufft is only accurate (~1e-3) for image sizes >= 4 (measured: 5e-2 at size 2, 5e-3 at size 3)
             recon[1], recon[2] = max(recon[1], 4), max(recon[2], 4)
         c = {'recon': recon, 'enc': enc, 'kind': kind, 'seed': rng.randrange(10 ** 6)}
+        if kind in ('partial', 'noncart') and rng.random() < 0.5:
+            c['kbwidth'] = rng.choice([2.0, 3.0])   # non-default Kaiser-Bessel width (default 2.34)
+            c['numpoints'] = rng.choice([5, 6])
         if kind.startswith('cart') or kind == 'dense_cart':
             ks = []
             for N in enc:
@@ -184,11 +187,25 @@ def _traj(c):
     return KTrajectory(kz, ky, kx, repeat_detection_tolerance=None, grid_detection_tolerance=tol), pts
 
 
+def build_fourier(c, traj=None):
+    """FourierOp of a case (non-default NUFFT kernel parameters when the case names them)"""
+    from mrpro.data import SpatialDimension
+    from mrpro.operators import FourierOp
+    if traj is None:
+        traj, _ = _traj(c)
+    kw = {}
+    if 'kbwidth' in c:
+        kw['nufft_kbwidth'] = c['kbwidth']
+    if 'numpoints' in c:
+        kw['nufft_numpoints'] = c['numpoints']
+    return FourierOp(SpatialDimension(*c['recon']), SpatialDimension(*c['enc']), traj, **kw)
+
+
 def impl_fourier(c):
     from mrpro.data import SpatialDimension
     from mrpro.operators import FourierOp
     traj, pts = _traj(c)
-    op = FourierOp(SpatialDimension(*c['recon']), SpatialDimension(*c['enc']), traj)
+    op = build_fourier(c, traj)
     g = torch.Generator().manual_seed(c['seed'])
     x = (torch.randint(-4, 5, (1, 1, *c['recon']), generator=g) + 1j * torch.randint(-4, 5, (1, 1, *c['recon']), generator=g)).to(torch.complex128)
     (y,) = op(x)
@@ -200,7 +217,7 @@ def impl_fourier(c):
         try:
             c2 = dict(c, grid_tol=-1.0)
             traj2, _ = _traj(c2)
-            op2 = FourierOp(SpatialDimension(*c['recon']), SpatialDimension(*c['enc']), traj2)
+            op2 = build_fourier(c2, traj2)
             (y2,) = op2(x)
             res['y_nufft'] = [[v.real, v.imag] for v in y2.reshape(-1).tolist()]
             res['paths2'] = {'fft': list(op2._fft_dims), 'nufft': list(op2._nufft_dims)}
